@@ -201,8 +201,9 @@ func Resume(
 		// Seeking does not notice the end of the file: make sure the last byte of the section
 		// is actually there, otherwise the section was only partially written.
 		var last [1]byte
-		if _, err := v1r.ReadAt(last[:], sectionOffset-1); err != nil {
-			if err == io.EOF {
+		if n, err := v1r.ReadAt(last[:], sectionOffset-1); n != 1 {
+			// (an io.ReaderAt may return the byte together with io.EOF when it is the last one)
+			if err == nil || err == io.EOF {
 				err = io.ErrUnexpectedEOF
 			}
 			return fmt.Errorf("truncated section at offset %d: %w", sectionOffset, err)
